@@ -525,3 +525,7 @@ async fn delete_segments(
         messages_count,
     })
 }
+
+#[cfg(kani)]
+#[path = "/verif/harness/server/hooks/maintain_messages.rs"]
+pub(crate) mod verif_hook;
